@@ -167,6 +167,15 @@ def run(facts, tier):
                 res.add(Finding("C16-1", "%s|%s" % (f["path"], n.split("::")[-1]),
                                 "%s uses the byte-indexed %s on character data (reachable: %s)"
                                 % (f["path"], n, " -> ".join(facts.path_to(parent, fid)[-4:])), f["file"], t.get("ln"), {}))
+    # the merged text node: its length is the character count of its data (a reference may stand for any number of characters)
+    f = facts.fn("xml_dom::<XmlExpandedText as CharacterData>::length")
+    names = [facts.callee_name(t["callee"]) for _, t in facts.mir_calls(f) if t.get("callee")]
+    ok = any(n.endswith("<std::str::Chars<'a> as std::iter::Iterator>::count") for n in names) and any(n.endswith("CharacterData>::data") or n.endswith("::data") for n in names)
+    res.oblige(1, ok)
+    st1["instances"] += 1
+    if not ok:
+        res.add(Finding("C16-1", "XmlExpandedText::length", "the length of a merged text node is not data().chars().count() (calls %s)" % [n.split("::")[-1] for n in names][:6],
+                        f["file"], f["line"], {}))
     for ty in ("XmlText", "XmlComment", "XmlCData"):
         f = facts.fn("xml_info::%s::len" % ty)
         names = [facts.callee_name(t["callee"]) for _, t in facts.mir_calls(f) if t.get("callee")]
